@@ -7,17 +7,17 @@
 #include "lz4io.c"
 #include "gen.h"
 
-static u64 n_calls, n_orders, n_grow;
+static u64 n_calls, n_orders, n_grow, n_grow512;
 
 static void one_order(const int* order, int n)
 {
-    WriteRegister wr = WR_init(4); FILE* f = tmpfile(); int i; rec_t r; u8 ranks[2048]; u8* file; long fsz; size_t expectLen = 0, p = 0; int ok = 1;
+    WriteRegister wr = WR_init(4); FILE* f = tmpfile(); int i; rec_t r; static u8 ranks[2048]; u8* file; long fsz; size_t expectLen = 0, p = 0; int ok = 1;
     for (i = 0; i < n; i++) {
         WriteJobDesc* wjd = (WriteJobDesc*)malloc(sizeof *wjd); size_t sz = 1 + (size_t)(order[i] % 5); u8* buf = (u8*)malloc(sz); size_t k;
         for (k = 0; k < sz; k++) buf[k] = (u8)(order[i] * 3 + (int)k);
         wjd->wr = &wr; wjd->cBuf = buf; wjd->cSize = sz; wjd->blockNb = (unsigned long long)order[i]; wjd->out = f;
         LZ4IO_checkWriteOrder(wjd); n_calls++;
-        if (wr.capacity > 16) n_grow++;
+        if (wr.capacity > 16) n_grow++; if (wr.capacity > 512) n_grow512++;
     }
     fflush(f); fsz = ftell(f); rewind(f); file = xalloc((size_t)fsz); if (fread(file, 1, (size_t)fsz, f) != (size_t)fsz) exit(3);
     for (i = 0; i < n; i++) ranks[i] = (u8)order[i];
@@ -75,7 +75,7 @@ static void permute(int* a, int k, int n) { int i; if (k == n) { one_order(a, n)
 
 int main(int argc, char** argv)
 {
-    int thorough, n, i; u64 seed; int a[512];
+    int thorough, n, i; u64 seed; static int a[2048];
     if (argc < 6) return 2;
     thorough = !strcmp(argv[2], "thorough"); seed = strtoull(argv[3], 0, 10);
     harness_init(argv[4], argv[5], seed);
@@ -94,7 +94,17 @@ int main(int argc, char** argv)
         else for (j = n - 1; j > 0; j--) { int k = (int)rndn((u32)j + 1); int t = a[j]; a[j] = a[k]; a[k] = t; }
         one_order(a, n);
     }
+    /* long backlogs: one slow block while hundreds of later ones are parked (the register grows 16, 32, ... 512, 768, 1024, 1280: every growth step is taken) */
+    {   static const int big[] = {520, 770, 1030, 1300}; int b, j;
+        for (b = 0; b < (thorough ? 4 : 3); b++) {
+            n = big[b];
+            for (j = 0; j < n - 1; j++) a[j] = j + 1; a[n - 1] = 0; one_order(a, n);                   /* block 0 arrives last */
+            for (j = 0; j < n; j++) a[j] = n - 1 - j; one_order(a, n);                                  /* completely reversed */
+            for (j = 0; j < n; j++) a[j] = j; for (j = n - 1; j > 0; j--) { int k = (int)rndn((u32)j + 1); int t = a[j]; a[j] = a[k]; a[k] = t; } a[n - 1] = a[0] ? a[n - 1] : a[n - 1]; one_order(a, n);   /* random */
+            for (j = 0; j < n; j++) a[j] = (j % 2) ? j - 1 : (j + 1 < n ? j + 1 : j); one_order(a, n);  /* pairs swapped: the register stays small */
+        }
+    }
     harness_done();
-    stat_u("calls", n_calls); stat_u("arrival_orders", n_orders); stat_u("register_grown", n_grow); stat_u("records", g_nrecords); stat_u("cfails", (u64)g_cfails);
+    stat_u("calls", n_calls); stat_u("arrival_orders", n_orders); stat_u("register_grown", n_grow); stat_u("register_grown_beyond_512", n_grow512); stat_u("records", g_nrecords); stat_u("cfails", (u64)g_cfails);
     return g_cfails ? 1 : 0;
 }
